@@ -566,6 +566,7 @@ def io_reuse_check(cfg, alphabet, vio_cap=3):
                     continue  # the first dialogue itself is broken: reported by the tree exploration
                 except Exception:
                     pass
+                inp.budget = 10 ** 9  # the probe below and the second dialogue get budgets of their own
                 if how == "append" and inp.read_line() != "":
                     continue  # (only when the first dialogue left nothing unread is "append" the same as a fresh input)
                 reads0 = inp.reads
